@@ -40,6 +40,9 @@ impl Entry {
     }
 }
 
+/// when set (ASan builds) guard-paged arenas are replaced by exact-size heap buffers, which ASan surrounds with redzones
+pub static NO_GUARD: std::sync::atomic::AtomicBool = std::sync::atomic::AtomicBool::new(false);
+
 thread_local! {
     static IN_LIBRARY: std::cell::Cell<u32> = std::cell::Cell::new(0);
 }
@@ -92,6 +95,7 @@ pub fn run_call<T: FftNum>(
     guard: Option<Align>,
 ) -> CallResult<T> {
     let _lib = LibScope::enter();
+    let guard = if NO_GUARD.load(std::sync::atomic::Ordering::Relaxed) { None } else { guard };
     match guard {
         None => {
             let mut data = input.to_vec();
